@@ -125,6 +125,8 @@ class Wrappers:
         (d / f"incfm{self.tag}.md").write_text("---\na: 1\n---\n" + x)
         yield "include-fm", f"```{{include}} incfm{self.tag}.md\n```\n", lambda doc: doc.children, None, False
         yield "include-in-note", f"````{{note}}\n```{{include}} inc{self.tag}.md\n```\n````\n", lambda doc: doc[0].children, None, False
+        (d / f"incm{self.tag}.md").write_text("before CUT\n\n" + x + "\nCUT\n\nafter the second marker\n")
+        yield ("include-markers", f"```{{include}} incm{self.tag}.md\n:start-after: CUT\n:end-before: CUT\n```\n", lambda doc: doc.children, None, False)
         # the same file a second time (inside a note, after the first include at top level): the second copy is judged
         yield ("include-again", f"```{{include}} inc{self.tag}.md\n```\n\n````{{note}}\n```{{include}} inc{self.tag}.md\n```\n````\n",
                lambda doc: doc[-1].children, None, False)
